@@ -16,7 +16,7 @@ CHECKS = {
          "DESIGN.md section 4, C02"),
  "C03": ("bounded exhaustive enumeration of drawing calls with per-pixel distinct inputs, each transition checked against a per-pixel reference built from sw_composite's public primitives",
          "Scenes give every pixel its own destination value, coverage, clip coverage and source colour; all 28 modes, all source kinds with decidable colour, alphas, all 256 mask bytes, every mask offset, pop_layer with every blend and opacity; every pixel of every buffer after every call must equal an admissible value of M-PIX for that pixel's own inputs (exactly blend(src,dst) at full weight, unchanged at zero weight).",
-         "Blend formulas are sw_composite's public primitives (trusted as definition); two compositions of coverage x clip coverage are admitted for partial weights; source colours of non-constant gradients and non-integer image sampling are left to C12/C13; also long strips (300 / 8200 px), a 300x300 mask, mixed histories to depth 5-6.",
+         "Blend formulas are sw_composite's public primitives (trusted as definition); two compositions of coverage x clip coverage are admitted for partial weights; source colours of non-constant gradients and non-integer image sampling are left to C12/C13; also long strips (300 / 8200 px), a 300x300 mask, mixed histories to depth 5-6, and draw_text (text feature, DejaVu font; glyph coverage recovered from an opaque-white SrcOver draw).",
          "DESIGN.md section 4, C03"),
 
  "C14": ("bounded exhaustive differential exploration: fast route vs general route on identical initial contents, bit-exact",
@@ -53,8 +53,8 @@ CHECKS = {
          "Group compositing formula as in C03; reference layers are real DrawTargets driven by the same calls (only isolation and the single group composite are modelled); includes towers of 4-6 layers and surfaces of more than 65536 pixels.",
          "DESIGN.md section 4, C06"),
  "C10": ("explicit-state exploration of call histories on one long-lived target; each transition compared with the same call on a fresh target holding the same visible state; merged BFS on a canonical state key",
-         "All well-nested histories over a 30-call alphabet to depth 3-4 unmerged and to depth 4-6 breadth-first with merging (19M distinct states at thorough): identical buffers on reused and fresh targets, rasteriser idle after every call.",
-         "Merging key = 64-bit hash of (all buffers, transform, clip stack, layers, idle flag, hidden path cursor); both sides are the implementation (differential); the alphabet (36 calls) includes empty clip rects and transform-positioned gradient / image draws.",
+         "All well-nested histories over a 40-call alphabet, from a transparent and from a non-empty surface, to depth 3-4 unmerged and to depth 4-6 breadth-first with merging (19M distinct states at thorough): identical buffers on reused and fresh targets, rasteriser idle after every call.",
+         "Merging key = 64-bit hash of (all buffers, transform, clip stack, layers, idle flag, hidden path cursor); both sides are the implementation (differential); open layers are re-established twice (replayed, and pushed + filled by copying); the alphabet includes empty clip rects, a Src-composited layer, a transparent draw, a surface copy and transform-positioned gradient / image draws.",
          "DESIGN.md section 4, C10"),
 
  "C07": ("deviation-bounded exhaustive enumeration of argument vectors per public call (0..d deviations from nominal over per-parameter boundary alphabets) and of call sequences, executed in watchdog-supervised child processes",
